@@ -29,7 +29,9 @@ func (pid *PID) Child(id string) *PID {
 }
 
 func (pid *PID) LookupKey() uint64 {
+	// a separator keeps ("ab", "c") and ("a", "bc") apart
 	key := []byte(pid.Address)
+	key = append(key, 0)
 	key = append(key, pid.ID...)
 	return xxh3.Hash(key)
 }
